@@ -103,8 +103,8 @@ def formats(ctx):
         with patch.patched(st, fu):
             E = sym.Engine(ctx, max_paths=5000, incremental=True)
             found = E.explore(h)
-            for label, m, pc in found[:1]:
-                md, nat, exp = choice.value_in_model(m, h.o)
+            for (label, m, pc), A in list(zip(found, E.autosnaps))[:1]:
+                md, nat, exp = choice.value_in_model(m, A["o"])
                 ctx.report(label, {"key": key, "md": list(md), "native": nat, "expected": exp}, replay_formats)
             if E.reached.get("converted"):
                 done += 1
@@ -201,8 +201,8 @@ def precedence(ctx):
         with patch.patched(ford, st, fu, extra={(ford, "tomllib"): TomlProxy}):
             E = sym.Engine(ctx, max_paths=2000, incremental=True)
             found = E.explore(h)
-            for label, m, pc in found[:2]:
-                f0, c_, l_ = (choice.value_in_model(m, x) for x in h.state)
+            for (label, m, pc), A in list(zip(found, E.autosnaps))[:2]:
+                f0, c_, l_ = (choice.value_in_model(m, x) for x in A["state"])
                 ctx.report(label, {"key": key, "in_file": f0, "in_config": c_, "in_cli": l_}, replay_precedence)
             if E.reached.get("parsed"):
                 done += 1
@@ -268,8 +268,8 @@ def illtyped(ctx):
         with patch.patched(st, fu):
             E = sym.Engine(ctx, max_paths=500, incremental=True)
             found = E.explore(h)
-            for label, m, pc in found[:1]:
-                ctx.report(label, {"key": key, "md": list(choice.value_in_model(m, h.v))}, replay_reject)
+            for (label, m, pc), A in list(zip(found, E.autosnaps))[:1]:
+                ctx.report(label, {"key": key, "md": list(choice.value_in_model(m, A["v"]))}, replay_reject)
             if E.reached.get("rejected") or found:
                 done += 1
     if done == len(BAD):
